@@ -1,5 +1,6 @@
 import OapiVerif.Model.Strict
 import OapiVerif.Proofs.GoJsonEnc
+import OapiVerif.Proofs.Form
 import OapiVerif.Gen.C12
 /-!
 C12 — Strict server delivers decoded requests and writes the declared responses.
@@ -122,3 +123,12 @@ theorem C12_json_response_body_faithful (t : GoTy) (v : GoVal) (hw : wf t = true
   simp [he, hd]
 
 end OapiVerif.GoJson
+
+namespace OapiVerif.Form
+
+/-- Form class of "the body decoded according to the request's Content-Type, equal to what the client sent": the strict
+handler binds the parsed form into the body struct; for the pairs of a well-typed body struct that is the struct. -/
+theorem C12_form_body_equals_sent (fs : List Field) (vs : List (Option SVal)) (hnd : (fs.map (·.name)).Nodup)
+    (hw : wellTyped fs vs = true) : bind (marshal fs vs) fs = some vs := bind_marshal fs vs hnd hw
+
+end OapiVerif.Form
